@@ -11,15 +11,15 @@ from .recipe_exec import RecipeRun
 STEP_W = {'transfer': 10, 'remove': 2, 'fill_to': 2, 'dilute': 1.5, 'new_container': 1.5, 'solution': 1.5, 'solution_from': 0.8}
 
 PROFILES = {
-    'C08': {'step_w': dict(STEP_W, solution=2.5, dilute=2), 'p_illegal': 0.03, 'p_infeasible': 0.02, 'p_stage': 0.15, 'post': (0, 1), 'steps': (3, 14)},
-    'C09': {'step_w': dict(STEP_W, remove=3.5, solution=2.5), 'p_container_solvent': 0.6, 'p_illegal': 0.01, 'p_infeasible': 0.0, 'p_stage': 0.45, 'post': (0, 0), 'steps': (3, 12)},
-    'C15': {'step_w': dict(STEP_W, remove=3, fill_to=3, solution=2.5), 'p_container_solvent': 0.6, 'p_illegal': 0.01, 'p_infeasible': 0.0, 'p_stage': 0.45, 'post': (0, 0), 'steps': (3, 12)},
-    'C16': {'step_w': STEP_W, 'p_illegal': 0.3, 'p_infeasible': 0.04, 'p_stage': 0.3, 'post': (1, 5), 'steps': (1, 8), 'p_unused': 0.1},
-    'C17': {'step_w': dict(STEP_W, remove=8), 'p_illegal': 0.01, 'p_infeasible': 0.0, 'p_stage': 0.5, 'post': (0, 0), 'steps': (3, 10), 'stage_single_remove': True},
-    'C19': {'step_w': dict(STEP_W, fill_to=4, dilute=3, new_container=2.5), 'p_illegal': 0.0, 'p_infeasible': 0.0, 'p_stage': 0.1, 'post': (0, 0), 'steps': (3, 10)},
+    'C08': {'step_w': dict(STEP_W, solution=2.5, dilute=2), 'p_illegal': 0.06, 'p_infeasible': 0.02, 'p_stage': 0.15, 'post': (0, 1), 'steps': (3, 14)},
+    'C09': {'step_w': dict(STEP_W, remove=3.5, solution=2.5), 'p_container_solvent': 0.6, 'p_illegal': 0.07, 'p_infeasible': 0.0, 'p_stage': 0.45, 'post': (0, 0), 'steps': (3, 12)},
+    'C15': {'step_w': dict(STEP_W, remove=3, fill_to=3, solution=2.5), 'p_container_solvent': 0.6, 'p_illegal': 0.07, 'p_infeasible': 0.0, 'p_stage': 0.45, 'post': (0, 0), 'steps': (3, 12)},
+    'C16': {'step_w': STEP_W, 'p_illegal': 0.3, 'p_infeasible': 0.04, 'p_stage': 0.3, 'post': (1, 5), 'steps': (1, 8), 'p_unused': 0.12, 'p_substance_named_vessel': 0.3},
+    'C17': {'step_w': dict(STEP_W, remove=8), 'p_illegal': 0.05, 'p_infeasible': 0.0, 'p_stage': 0.5, 'post': (0, 0), 'steps': (3, 10), 'stage_single_remove': True},
+    'C19': {'step_w': dict(STEP_W, fill_to=4, dilute=3, new_container=2.5), 'p_illegal': 0.03, 'p_infeasible': 0.0, 'p_stage': 0.1, 'post': (0, 0), 'steps': (3, 10)},
     'C04': {'step_w': STEP_W, 'p_illegal': 0.1, 'p_infeasible': 0.1, 'p_stage': 0.2, 'post': (0, 2), 'steps': (2, 8)},
-    'C03': {'step_w': STEP_W, 'p_illegal': 0.0, 'p_infeasible': 0.5, 'p_stage': 0.1, 'post': (0, 0), 'steps': (2, 8)},
-    'C07': {'step_w': dict(STEP_W, transfer=10, remove=4, fill_to=4, dilute=0.3, solution=0.5, solution_from=0.2), 'p_illegal': 0.0, 'p_infeasible': 0.0, 'p_stage': 0.1, 'post': (0, 0), 'steps': (2, 8)},
+    'C03': {'step_w': STEP_W, 'p_illegal': 0.06, 'p_infeasible': 0.5, 'p_stage': 0.1, 'post': (0, 0), 'steps': (2, 8)},
+    'C07': {'step_w': dict(STEP_W, transfer=10, remove=4, fill_to=4, dilute=0.3, solution=0.5, solution_from=0.2), 'p_illegal': 0.03, 'p_infeasible': 0.0, 'p_stage': 0.1, 'post': (0, 0), 'steps': (2, 8)},
 }
 
 
@@ -106,15 +106,15 @@ def run_generated(prop, seed, run_idx, tier, known=None):
             emit({'c': 'uses', 'objs': [late.pop()]})
         lc = run.lc
         if lc.open_stage is None and rng.random() < profile['p_stage']:
-            g.stage_n += 1
-            emit({'c': 'start_stage', 'name': f"s{g.stage_n}"})
+            sname = g.new_stage_name()
+            emit({'c': 'start_stage', 'name': sname})
             stage_left = 1 if profile.get('stage_single_remove') and rng.random() < 0.6 else rng.randint(1, 4)
             if rng.random() < 0.12:
                 # an empty stage: closed at once, or left open (bake closes it); its name stays taken either way
                 if rng.random() < 0.6:
-                    emit({'c': 'end_stage', 'name': f"s{g.stage_n}"})
+                    emit({'c': 'end_stage', 'name': sname})
                     if rng.random() < 0.5:
-                        emit({'c': 'start_stage', 'name': f"s{g.stage_n}"})      # must be refused: the name is taken
+                        emit({'c': 'start_stage', 'name': sname})      # must be refused: the name is taken
                     continue
         prefer = 'remove' if (profile.get('stage_single_remove') and lc.open_stage is not None and stage_left == 1 and rng.random() < 0.8) else None
         c = g.gen_step(prefer)
